@@ -285,6 +285,7 @@ class InputValidation:
                 continue
 
             if "one_of" in validations:
+                validations = validations.copy()  # the rule table is shared between calls
                 one_of_group = validations.pop("one_of")
                 val = {param: data[param] is not None}
                 if one_of_group in one_of_validations:
